@@ -254,10 +254,33 @@ def value_stream(r, n):
         yield c04.gen_value(r, 4, allow_other=r.chance(1, 8))
 
 
+SIG_SURROGATE = "C19:lone-surrogate-text-uses-surrogatepass"
+
+
+def surrogate_text_judgement(v):
+    """A dumpable value whose text holds a lone surrogate: the published format has no encoding for it (text = UTF-8).
+    None if the real encoder refuses it at the sender (what 5.0.x did); else a description of what it transmits."""
+    brine = rp()[1]
+    try:
+        data = brine.dump(v)
+    except (UnicodeEncodeError, TypeError, ValueError, RecursionError):
+        return None
+    try:
+        refcodec.decode(data)
+    except refcodec.FormatError as ex:
+        return ("dump(v) transmits %s, which is not a sentence of the published format (reference decoder: %s; a strict 5.0.x "
+                "_load_unicode raises UnicodeDecodeError out of serve())" % (data.hex()[:80], ex))
+    return None
+
+
 def check_value_real(v, r):
     """direct oracle for one value on the real code and refcodec only; None or a description"""
     brine = rp()[1]
-    if not in_published_domain(v) or c04.depth_of(v) > 200:
+    if c04.depth_of(v) > 200 or c04.has_overlimit_int(v):
+        return None
+    if has_surrogate(v) and brine.dumpable(v):
+        return surrogate_text_judgement(v)
+    if not in_published_domain(v):
         return None
     want = refcodec.encode(v)
     try:
@@ -1312,6 +1335,7 @@ def correspondence(ctx):
     n_vals = ctx.budget(4000, 30000)
     n_boundary = len(c04.boundary_values())
     forms_used = {}
+    surrogate_cases = []
     for vi, v in enumerate(value_stream(r, n_vals)):
         if c04.depth_of(v) > 200:
             continue
@@ -1329,9 +1353,15 @@ def correspondence(ctx):
             c.count("value:outside-interpreter-digit-limit")
             continue
         if sur:
-            c.count("value:surrogate-text(extension)")
-            add("spec encx " + t, "enc-ext", t, real, sig + ":sp")
-            add("spec enc " + t, "enc-ext-strict", t, None, None)
+            # judged, not skipped: the published encoder (Lean strict rule, refcodec) refuses such text; what does the code do?
+            verdict = surrogate_text_judgement(v) if real.startswith("ok") else None
+            if verdict:
+                c.count("value:lone-surrogate-text:TRANSMITTED outside the published format [%s]" % SIG_SURROGATE)
+                surrogate_cases.append(dict(value=t[:200], transmitted=real[3:83]))
+            else:
+                c.count("value:lone-surrogate-text:%s" % ("refused at the sender" if not real.startswith("ok") else "other outcome"))
+            add("spec encx " + t, "enc-ext", t, real, sig + ":sp")       # the model of the code carries the same behaviour
+            add("spec enc " + t, "enc-ext-strict", t, None, None)         # the published rule refuses
             ref = ref_dump(v)
             if ref.startswith("ok"):
                 disagree("refcodec", t, real, ref)
@@ -1367,6 +1397,13 @@ def correspondence(ctx):
                 else:
                     c.count("load-of-%s-form:too-long-for-the-model-decoder" % mode)
     c.extra["reference_forms_used"] = forms_used
+    listed = any(k.get("property") == ID and k.get("signature") == SIG_SURROGATE and k.get("status") == "known"
+                 for k in __import__("pipeline").load_known())
+    c.extra["known_finding_lone_surrogate_text"] = dict(
+        signature=SIG_SURROGATE, listed_in_known_findings=listed, cases_this_run=len(surrogate_cases),
+        samples=surrogate_cases[:3],
+        note="dumpable text with a lone surrogate is transmitted in the generalized three-byte form (surrogatepass), which the "
+             "published format does not define; Lean: C19_emits_only_published_counterexample / enc_eq_specEnc (partial)")
     ctx.log("values done: %d op lines so far" % len(lines))
 
     # (b) packets
@@ -1571,7 +1608,8 @@ def oracle_search(ctx, corr, broken):
             return None
         v = shrink_value(v, r)
         msg = check_value_real(v, r) or msg
-        sig = ("value:dump-raises" if msg.startswith("dump(v) raised") else "value:dump-differs" if msg.startswith("dump(v)")
+        sig = (SIG_SURROGATE if has_surrogate(v) and "not a sentence of the published format" in msg
+               else "value:dump-raises" if msg.startswith("dump(v) raised") else "value:dump-differs" if msg.startswith("dump(v)")
                else "value:load-raises" if " raised " in msg else "value:load-differs")
         if sig in known:
             return None
@@ -1681,12 +1719,51 @@ def oracle_search(ctx, corr, broken):
     return None
 
 
+def known_probes(ctx):
+    """The known finding of C19 (armed only while it is listed with status=known in known_findings.json; unlisted, the
+    same behaviour is reported through the direct oracle when a search runs).  The witness of the Lean theorem
+    C19_emits_only_published_counterexample, `"\\ud800"`, alone and as a ping argument of a real Connection."""
+    if SIG_SURROGATE not in getattr(ctx, "known_signatures", set()):
+        return []
+    texts = []
+    msg = surrogate_text_judgement("\ud800")
+    if msg:
+        texts.append('brine.dump("\\ud800"): ' + msg)
+    try:
+        rpyc, _b, channel, consts, _p, _s = rp()
+        st = make_loop_stream()
+        peer = refcodec.RefPeer()
+        consumed = [0]
+
+        def pump():
+            out = bytes(st.out[consumed[0]:])
+            consumed[0] = len(st.out)
+            if out:
+                st.inbox += peer.feed(out)
+        st.pump = pump
+        conn = rpyc.VoidService()._connect(channel.Channel(st, True), {})
+        try:
+            conn.sync_request(consts.HANDLE_PING, "a\udfffb")
+        except BaseException as ex:  # noqa
+            if peer.problems:
+                texts.append("a ping carrying 'a\\udfffb' from a real Connection: the conforming peer cannot decode the request "
+                             "(%s); the caller got %s" % (peer.problems[0][:160], type(ex).__name__))
+        conn._closed = True
+    except Exception as ex:  # noqa
+        texts.append("conversation probe crashed: %r" % (ex,))
+    rep = bool(texts)
+    return [(SIG_SURROGATE, rep, "signature=%s %s" % (SIG_SURROGATE, "; ".join(texts) if rep else "does not reproduce: the sender "
+                                                      "refuses text with a lone surrogate"))]
+
+
 def replay(case):
     out = dict(case=case)
     part = case.get("part")
     r = Rng(1).fork("c19-replay")
     if part == "value":
         v = valtext.from_text(case["value"])
+        if has_surrogate(v):
+            out["known_finding"] = SIG_SURROGATE
         out["implementation"] = impl_dump(v)[:400]
         out["reference"] = ref_dump(v)[:400]
         out["oracle"] = check_value_real(v, r) or "holds"
